@@ -3,6 +3,7 @@ package main
 // SSA -> verification conditions for one function under contract.
 
 import (
+	"regexp"
 	"os"
 	"fmt"
 	"go/ast"
@@ -136,6 +137,7 @@ type FuncTr struct {
 	astLoops   []ast.Node
 	ordOfAst   []int // contract ordinal of each source loop
 	loopWarn   []string
+	calledTrack map[string]bool // callee names mentioned in called(...) of this contract
 	exitDef    map[*ssa.Alloc]bool // variables whose declaration is tracked for exit assertions
 	trackDef   map[*ssa.Alloc]*LoopInfo // variables declared in the body of a loop with end assertions: defined-in-this-iteration flags
 	rfLoops    []*LoopInfo
@@ -892,6 +894,30 @@ func (ft *FuncTr) run() error {
 					st.ghost[defFlag(a)] = TFalse
 				}
 			}
+		}
+	}
+	// called(name): has a call to `name` been made on this path (exit / loop-end / anchored assertions, postconditions)
+	ft.calledTrack = map[string]bool{}
+	{
+		re := regexp.MustCompile(`called\(([A-Za-z_][A-Za-z0-9_]*)\)`)
+		scan := func(cs []Clause) {
+			for _, c := range cs {
+				for _, m := range re.FindAllStringSubmatch(c.Text, -1) {
+					ft.calledTrack[m[1]] = true
+				}
+			}
+		}
+		scan(ft.c.Exits)
+		scan(ft.c.Ensures)
+		for _, ls := range ft.c.Loops {
+			scan(ls.EndAsserts)
+			scan(ls.Invariants)
+		}
+		for _, a := range ft.c.Anchored {
+			scan([]Clause{a.C})
+		}
+		for n := range ft.calledTrack {
+			st.ghost["$called_"+n] = TFalse
 		}
 	}
 	if len(ft.c.Exits) > 0 {
